@@ -65,7 +65,7 @@ def check(ctx):
     drv = common.Driver()
     try:
         reps = 250 if ctx['tier'] == 'quick' else 4000
-        lines, expect, meta = [], [], []
+        lines, expect, meta, tlines = [], [], [], []
         for k in range(reps):
             nv, nd = C.rng.randint(1, 4), C.rng.randint(1, 3)
             mode, lb, ub = gen_bounds(C.rng, nv)
@@ -86,6 +86,7 @@ def check(ctx):
                 again = np.array(a.position, copy=True)
                 blo, bhi = lb, ub
                 lines.append(f'clip {enc_keys(lb)} {enc_keys(ub)} {enc_pos(before)}')
+                tlines.append(f'cl.agent {enc_keys(lb)} {enc_keys(ub)} {enc_pos(before)}')
             elif kind == 'search':
                 sp = L['SearchSpace'](n_agents=2, n_variables=nv, n_iterations=1, lower_bound=list(lb), upper_bound=list(ub))
                 # SearchSpace agents are (nv, 1); use a (nv, 1) slice of the generated position
@@ -99,6 +100,7 @@ def check(ctx):
                 again = np.array(sp.agents[1].position, copy=True)
                 blo, bhi = lb, ub
                 lines.append(f'clip {enc_keys(lb)} {enc_keys(ub)} {enc_pos(before)}')
+                tlines.append(f'cl.search {enc_keys(lb)} {enc_keys(ub)} {enc_pos(before)}')
                 if not np.array_equal(other, sp.agents[0].position):
                     C.issue('feasible-agent-moved', 'oracle', dict(how='clip', kind=kind, lb=lb, ub=ub, pos=other.tolist()))
             else:
@@ -111,6 +113,7 @@ def check(ctx):
                 again = np.array(sp.agents[0].position, copy=True)
                 blo, bhi = [0.0] * nv, [1.0] * nv
                 lines.append(f'cliphyper {nv} {enc_pos(before)}')
+                tlines.append(f'cl.hyper {enc_keys(lb)} {enc_keys(ub)} {enc_pos(before)}')
             expect.append(enc_pos(after))
             rp = dict(how='clip', kind=kind, lb=list(lb), ub=list(ub), pos=before.tolist())
             meta.append(rp)
@@ -126,6 +129,13 @@ def check(ctx):
         for o, x, rp in zip(outs, expect, meta):
             if o != x:
                 C.issue('clip-mismatch', 'correspondence', rp, model=o[:200], real=x[:200])
+        # the loops as the translator read them from the current source, run by the Lean semantics of ClipLoop:
+        # validates the translator's reading against the running code
+        outs = drv.ask_many(tlines)
+        for o, x, rp in zip(outs, expect, meta):
+            if o != x:
+                C.issue('translated-clip-loop-mismatch', 'correspondence', rp, model=o[:200], real=x[:200])
+        C.extra['translated_clip_loops_run'] = len(tlines)
         # ---- construction
         reps = 60 if ctx['tier'] == 'quick' else 600
         for k in range(reps):
